@@ -1018,7 +1018,7 @@ Proof.
          | (if ?x then _ else _) = _ => destruct x eqn:?; try discriminate H
          end;
     injection H as _ <- _ _ _; try (split; assumption);
-    unfold sdata, spos in *; rewrite Ec; unfold stream_after; cbn [s_data s_pos]; split; [assumption|lia].
+    unfold sdata, spos in *; rewrite Ec; unfold stream_after; cbn [s_data s_pos]; (split; [assumption|lia]).
 Qed.
 
 Lemma run_progress : forall orc chunk st v e p rs st2 v2 e2 p2,
@@ -1123,3 +1123,87 @@ Proof.
   eapply unknown_line_endings; eauto. rewrite Hle. cbn [le_unknown]. split; [|exact Hunk].
   eapply (read_header_vals _ _ _ _ _ _ _ _ _ Hh). exact Hle.
 Qed.
+
+(* ================================================================================================= *)
+(* Part E: concrete inputs used by the Examples of props/C03.v                                        *)
+(* ================================================================================================= *)
+
+(* executable form of [run]: n iterations that all yield *)
+Fixpoint run_n (n : nat) (orc : oracle) (chunk : nat) (st : rstate) (v : list bytes) (e : list (option pv)) (p : nat)
+  : option (list record * (rstate * list bytes * list (option pv) * nat)) :=
+  match n with
+  | O => Some ([], (st, v, e, p))
+  | S k =>
+      match iter_step orc chunk st v e p with
+      | SYield r st1 v1 e1 p1 =>
+          match run_n k orc chunk st1 v1 e1 p1 with
+          | Some (rs, x) => Some (r :: rs, x)
+          | None => None
+          end
+      | _ => None
+      end
+  end.
+
+Lemma run_n_run : forall n orc chunk st v e p rs st2 v2 e2 p2,
+  run_n n orc chunk st v e p = Some (rs, (st2, v2, e2, p2)) -> run orc chunk st v e p rs st2 v2 e2 p2.
+Proof.
+  induction n as [|n IH]; intros orc chunk st v e p rs st2 v2 e2 p2 H; cbn [run_n] in H.
+  - injection H as <- <- <- <- <-. apply run_nil.
+  - destruct (iter_step orc chunk st v e p) as [|r st1 v1 e1 p1| |] eqn:Hs; try discriminate H.
+    destruct (run_n n orc chunk st1 v1 e1 p1) as [[rs' [[[st' v'] e'] p']]|] eqn:Hr; [|discriminate H].
+    injection H as <- <- <- <- <-. eapply run_cons; [exact Hs|]. apply IH. exact Hr.
+Qed.
+
+(* closes a conjunction of closed computational facts, left to right (earlier conjuncts instantiate evars) *)
+Ltac ex_conj := repeat (split; [vm_compute; reflexivity|]); vm_compute; reflexivity.
+
+Definition c03_nl : bytes := [x0a].
+Definition c03_crlf : bytes := [x0d; x0a].
+Definition c03_main : bytes := B "#diffx: encoding=utf-8, version=1.0" ++ c03_nl.
+
+(* A.1 *)
+Definition c03_bad_version : bytes := B "#diffx: encoding=utf-8, version=2.0" ++ c03_nl ++ B "#.change:" ++ c03_nl.
+Definition c03_no_version : bytes := B "#diffx: encoding=utf-8" ++ c03_nl ++ B "#.change:" ++ c03_nl.
+Definition c03_int_version : bytes := B "#diffx: version=1" ++ c03_nl.
+(* A.2 *)
+Definition c03_missing_length : bytes :=
+  c03_main ++ B "#.change:" ++ c03_nl ++ B "#..meta: format=json" ++ c03_nl ++ B "{}" ++ c03_nl.
+(* A.3 *)
+Definition c03_format_yaml : bytes :=
+  c03_main ++ B "#.meta: format=yaml, length=3" ++ c03_nl ++ B "{}" ++ c03_nl.
+(* A.4 *)
+Definition c03_le_mac : bytes :=
+  c03_main ++ B "#.preamble: length=3, line_endings=mac" ++ c03_nl ++ B "ab" ++ c03_nl.
+(* A.5: a diff of 5 bytes "-a\n+b" without its final newline, after four well-formed sections *)
+Definition c03_empty_obj_orc : oracle := [(B "s{}" ++ c03_nl, LoadsOk (JObj []))].
+Definition c03_no_final_nl : bytes :=
+  c03_main ++ B "#.change:" ++ c03_nl ++ B "#..file:" ++ c03_nl ++
+  B "#...meta: length=3" ++ c03_nl ++ B "{}" ++ c03_nl ++
+  B "#...diff: length=5" ++ c03_nl ++ B "-a" ++ c03_nl ++ B "+b".
+(* A.5, text case: a preamble whose declared length stops before the newline *)
+Definition c03_no_final_nl_text : bytes :=
+  c03_main ++ B "#.preamble: length=2" ++ c03_nl ++ B "ab" ++ c03_nl.
+(* A.6 *)
+Definition c03_bad_json : bytes :=
+  c03_main ++ B "#.meta: format=json, length=3" ++ c03_nl ++ B "{x" ++ c03_nl.
+Definition c03_bad_json_orc : oracle := [(B "s{x" ++ c03_nl, LoadsValueError)].
+(* B: a file from another producer: options in another order, optional options absent, blank and whitespace-only
+   lines between sections, compact JSON, a two-line indented preamble *)
+Definition c03_foreign : bytes :=
+  B "#diffx: version=1.0, encoding=utf-8" ++ c03_nl ++
+  c03_nl ++
+  B "#.preamble: length=10, indent=2" ++ c03_nl ++ B "  ab" ++ c03_nl ++ B "  cd" ++ c03_nl ++
+  B "  " ++ c03_nl ++
+  B "#.change:" ++ c03_nl ++
+  B "#..file:" ++ c03_nl ++
+  B "#...meta: length=8" ++ c03_nl ++ B "{" ++ [x22] ++ B "a" ++ [x22] ++ B ":1}" ++ c03_nl ++
+  B "#...diff: length=6" ++ c03_nl ++ B "-a" ++ c03_nl ++ B "+b" ++ c03_nl.
+Definition c03_foreign_orc : oracle :=
+  [(B "s{" ++ [x22] ++ B "a" ++ [x22] ++ B ":1}" ++ c03_nl, LoadsOk (JObj []))].
+(* C: CRLF header lines (content keeps LF), then a header line ending in LF only *)
+Definition c03_crlf_ok : bytes :=
+  B "#diffx: encoding=utf-8, version=1.0" ++ c03_crlf ++ B "#.change:" ++ c03_crlf ++ B "#..file:" ++ c03_crlf ++
+  B "#...meta: length=3" ++ c03_crlf ++ B "{}" ++ c03_nl ++
+  B "#...diff: length=6" ++ c03_crlf ++ B "-a" ++ c03_nl ++ B "+b" ++ c03_nl.
+Definition c03_crlf_then_lf : bytes :=
+  B "#diffx: encoding=utf-8, version=1.0" ++ c03_crlf ++ B "#.change:" ++ c03_crlf ++ B "#..file:" ++ c03_nl.
